@@ -9,8 +9,11 @@ check("C18", "model_checking",
       "(same codes, non-zero status, no ESC under --color=never, no non-ASCII character that is not quoted source under --arrows=ascii). "
       "Third part (CliArgs.tla): every base invocation with up to 2 (3) deviations among -o, backend / link arguments by flag and / or config file, "
       "wasm in the config, broken config files, 1-3 input files in both orders, unreadable inputs, out dirs that are missing / deep / a file, core: and vendor: "
-      "paths, the same module twice, NO_COLOR / TERM=dumb, and the `penne fuzz tokens` product (1 746 / 13 074 + 84 configurations), each replayed on the real binary.",
+      "paths, the same module twice, NO_COLOR / TERM=dumb, and the `penne fuzz tokens` product (1 746 / 13 074 + 84 configurations), each replayed on the real binary. "
+      "Fourth part (CliSession.tla, a state machine): sessions of up to 4 (5) steps in ONE output directory -- emit (both modules / the imported one, native / --wasm), "
+      "edit of one source text, a foreign file planted at the path of an IR file, removal; TLC checks that the rule makes an emission a function of sources and target "
+      "alone and emits every behaviour ending with an emission (2 852 / 26 124); each is replayed, every IR file compared after every emission with an emission into an empty directory.",
       "Trusted: TLC, the fake backends, the reading of --silent as 'no visible output'. Absolute input paths are outside the property's "
       "quantifier (noted, not reported). The optimised build is the binary under test.",
-      "TLA+ specs (Cli.tla, CliDiag.tla) + TLC enumeration of the configuration products, one implementation test per configuration on the real binary",
+      "TLA+ specs (Cli.tla, CliDiag.tla, CliArgs.tla, CliSession.tla) + TLC enumeration of the configuration products, one implementation test per configuration on the real binary",
       "DESIGN.md section 5 C18")
